@@ -8,7 +8,7 @@
 Writes benign/VERIFIED.txt.   usage: verify_benign.py [lanes] [ids...]"""
 import glob, os, queue, re, shutil, subprocess, sys, threading
 VERIF = os.path.dirname(os.path.dirname(os.path.abspath(__file__)))
-ROOT = os.path.join(VERIF, "benign")
+ROOT = os.path.join(VERIF, os.environ.get("BENIGN_ROOT", "benign"))
 lanes = int(sys.argv[1]) if len(sys.argv) > 1 else 4
 only = sys.argv[2:]
 BASE = "/tmp/bnv"
@@ -32,7 +32,7 @@ def lane(i):
         except queue.Empty:
             break
         d = os.path.join(ROOT, sid)
-        tests = sorted(glob.glob(os.path.join(d, "demo", "refB_*.rs")))
+        tests = sorted(glob.glob(os.path.join(d, "demo", "ref[BC]_*.rs")))
         names = [os.path.basename(t)[:-3] for t in tests]
         for t in tests:
             shutil.copy(t, os.path.join(wt, "ts-rs", "tests"))
